@@ -86,6 +86,18 @@ def front_live_oracle(ep, outs):
     return fails
 
 
+def both_oracle(ep, outs):
+    ol = C.op_lines(ep)
+    begins = [(l, o) for l, o in zip(ol, outs) if l.split()[1] == "begin"]
+    if len(begins) < 10 or not ol[0].startswith("lb new") or "lb add b0 1 good" not in ol or not begins[0][1].startswith("fwd "):
+        return []           # (a shrunk episode without its backend or its first exchange says nothing)
+    tail = begins[-3:]
+    if not all(o.startswith("fwd ") for _, o in tail):
+        return ["the backend has been answering again for seconds (ejection window and breaker timeout elapsed, %d requests sent since) and "
+                "requests are still refused: %s" % (len(begins) - 4, ["%s -> %s" % (l.split()[2], o) for l, o in begins[-8:]])]
+    return []
+
+
 def check(ctx):
     ctx.assumptions += [
         "virtual clock via overlay; requests overlap at critical-section granularity",
@@ -101,6 +113,31 @@ def check(ctx):
         [wire_episode(ctx.rng) for _ in range(3000 if ctx.thorough() else 400)]
     dw.check(wired, oracle=wire_oracle, label="cb-config")
     ctx.cov["breaker_configs_through_validation_and_wiring"] = len(wired)
+    # the breaker next to passive ejection, both tripped by one outage, the ejection window longer than the breaker timeout:
+    # the half-open trial meets an empty candidate set; once the window has run out too, traffic flows again after a
+    # bounded number of requests (judged by the oracle alone)
+    S = 10**9
+    both = []
+    for strat, thr, ft, st, mx in (("round_robin", 2, 2, 1, 0), ("least_connections", 1, 1, 2, 0), ("ip_hash", 2, 2, 1, 1), ("weighted_round_robin", 2, 2, 2, 2)):
+        ops = ["lb new %s 1 %d 5 0 0 0 1 %d %d %d 60 1" % (strat, thr, ft, st, mx), "lb add b0 1 good"]
+        t, tid = S, 0
+        for _ in range(max(thr, ft)):
+            tid += 1
+            ops += ["lb begin %d %d - - 10.0.0.1:1" % (tid, t), "lb end %d %d 500" % (tid, t + 1000)]
+            t += 10**6
+        for dt in (int(1.5 * S), int(0.4 * S)):            # breaker timeout elapsed, backend still ejected
+            t += dt
+            tid += 1
+            ops += ["lb begin %d %d - - 10.0.0.1:1" % (tid, t), "lb end %d %d 200" % (tid, t + 1000)]
+        t += 6 * S                                          # ... and now the ejection window has run out as well
+        for _ in range(8):
+            tid += 1
+            t += int(1.2 * S)
+            ops += ["lb begin %d %d - - 10.0.0.1:1" % (tid, t), "lb end %d %d 200" % (tid, t + 1000)]
+        both.append(ops)
+
+    dw.check_oracle_only(both, both_oracle, "cb-with-passive-liveness")
+    ctx.cov["breaker_with_passive_ejection_episodes"] = len(both)
     from . import c03
     fl = front_live_episodes() if ctx.thorough() else [front_live_episodes()[0], front_live_episodes()[3]]
     C.Differential(ctx, c03.build(ctx), timeout=600, project=c03.project, confirm=2).check(fl, oracle=front_live_oracle, label="cb-front-liveness")
